@@ -64,3 +64,26 @@ def run(prop, tier, seed, plan, feature=None, module="MC_Gen", release_too=None,
     rep.coverage["programs_exercising_the_feature"] = nfeature
     rep.coverage["triggers_seen"] = dict(trig_count)
     return rep
+
+
+def run_scenarios(rep, name, progs, binaries, prop, max_steps=400):
+    """progs: [(id, tokens)] built in Python; the reference machine (MC_MachineFile) supplies the expectation."""
+    import mrun
+    model, res = mrun.model_run(progs, tag=prop.lower() + name)
+    if res.violation:
+        rep.violation("%s: TLC reports\n%s" % (name, res.violation[:2000]), {"tlc": res.violation})
+    runs = []
+    for pid, toks in progs:
+        if pid not in model:
+            rep.violation("scenario %s has no result from the reference machine" % pid, {"source": yprog.program_src(toks)})
+            continue
+        r = dict(model[pid])
+        r["prog"] = toks
+        runs.append(r)
+    n, u = profiles.replay(rep, runs, binaries, "scenario (%s)" % name, prop)
+    rep.coverage["states"] = rep.coverage.get("states", 0) + res.distinct
+    rep.coverage["transitions"] = rep.coverage.get("transitions", 0) + res.generated
+    rep.coverage["traces_validated_against_impl"] = rep.coverage.get("traces_validated_against_impl", 0) + n
+    rep.coverage["scenario_programs_" + name] = u
+    log("[%s] scenarios %s: %d programs, %d comparisons, TLC states %d" % (prop.lower(), name, len(progs), n, res.distinct))
+    return n
